@@ -48,6 +48,8 @@ func checkC17(c *Ctx) {
 	c.Expect("C17-R12", 2)
 	c.Rule("C17-R13", "the ACS glyph for every rune the description provides one for: the table is filled from the acsc string whatever the locale's character set (a charset that has the box-drawing runes may still lack diamond, pi, arrows: which rune needs the glyph is decided per cell)")
 	c.Expect("C17-R13", 1)
+	c.Rule("C17-R14", "the terminal's ACS glyph, with this terminal's enter and exit sequences: the table a screen uses is a map made for it, never one taken from a package-level cache keyed by the acsc string alone")
+	c.Expect("C17-R14", 1)
 	c.Expect("C17-R9", 3)
 	c.Rule("C17-R5", "the fallback map is consulted by direct lookup only and never copied after construction; it is seeded where it is made (before the application holds the screen) and afterwards changed one entry at a time by Register/Unregister only")
 	c.Rule("C17-R6", "RegisterEncoding and GetEncoding apply the same name normalisation under the registry lock; GetEncoding returns nil only when no fallback is configured")
@@ -66,6 +68,7 @@ func checkC17(c *Ctx) {
 	checkWidePaddingFromMainRune(c, p, "C17-R11")
 	checkFallbackOnlyForMainRune(c, p, "C17-R12")
 	checkAcsMapUnconditional(c, p, "C17-R13")
+	checkAcsMapOwnedByScreen(c, p, "C17-R14")
 	enc := p.Fn("tcell:(*tScreen).encodeRune")
 	can := p.Fn("tcell:(*tScreen).CanDisplay")
 	if enc == nil || can == nil {
